@@ -211,8 +211,10 @@ def cells(wb, inputs=None):
         vals.update(inputs)
     out = {a: v for a, v in vals.items() if v is not None}
     for f in wb['formulas']:
-        out[f] = formula_text(wb, f)
-    arrays = {r: f'={s}*{k}' for r, (s, k) in wb.get('cse', {}).items()}
+        out[f] = wb.get('texts', {}).get(f) or formula_text(wb, f)
+    arrays = {r: wb.get('cse_texts', {}).get(r) or f'={s}*{k}'
+              for r, (s, k) in wb.get('cse', {}).items()}
+    out.update(wb.get('extra_cells', {}))      # headers, tables: not nodes of the model
     return out, arrays
 
 
@@ -323,6 +325,28 @@ WORKBOOKS_OBS = {
         aliases={'D:D': 'D1:D2'}),
 }
 WORKBOOKS_OBS['cse_obs']['inputs']['E2'] = None
+
+# Workbooks whose formulas are outside the formula kinds Engine.tla knows: the
+# kinds below only give the model the same dependency shape, the real formula
+# text is in `texts`.  Tours over them are judged by observables only.
+WORKBOOKS_OPAQUE = {
+    # plain cells with array-sensitive functions that feed a CSE array formula
+    'cse_opq': dict(
+        inputs={'A1': 1, 'A2': 2, 'A3': 3, 'B3': 5},
+        formulas={'B1': ('SumR', 'A1:A3'), 'B2': ('SumR', 'A1:A3')},
+        texts={'B1': '=IFERROR(A1:A3,9)', 'B2': '=IFNA(A1:A3,7)'},
+        ranges={'A1:A3': [['A1'], ['A2'], ['A3']], 'B1:B3': [['B1'], ['B2'], ['B3']]},
+        cse={'D1:D3': ('A1:A3', 2)}, cse_texts={'D1:D3': '=A1:A3*B1+B2'}),
+    # a table with a calculated column: the same formula text in every row
+    'table_opq': dict(
+        inputs={'A2': 1, 'A3': 2, 'A4': 3},
+        formulas={'B2': ('Plus', ['A2'], 0), 'B3': ('Plus', ['A3'], 0),
+                  'B4': ('Plus', ['A4'], 0), 'C2': ('SumR', 'B2:B4')},
+        texts={'B2': '=T[[#This Row],[x]]*2', 'B3': '=T[[#This Row],[x]]*2',
+               'B4': '=T[[#This Row],[x]]*2', 'C2': '=SUM(T[y])'},
+        ranges={'B2:B4': [['B2'], ['B3'], ['B4']], 'A2:B4': [['A2', 'B2'], ['A3', 'B3'], ['A4', 'B4']]},
+        extra_cells={'A1': 'x', 'B1': 'y', '__table__': ('T', 'A1:B4')}),
+}
 WORKBOOKS_OBS['nested_obs']['ranges']['A2:D2'] = [['A2', 'B2', 'C2', 'D2']]
 
 POOL_QUICK = [None, 0, 1, True, 'a']
